@@ -380,6 +380,19 @@ def main():
             violations.append(f)
     rc = 0
     lines_out = []
+    # bounded stand-in / witness search: hand-written scenarios replayed on the real crate (never counted as proof).
+    # Run when the verifier reports a violation (to attach a failing input), when it is undecided (the bounded
+    # check then stands in for the functions it could not reach) and always in the thorough tier.
+    bounded = dict(scenarios_run=0, failed=[], note="bounded: finite hand-written scenario set per property, public API, debug+release")
+    scen_fail = []
+    if violations or undecided or tier == "thorough":
+        try:
+            import scenarios as sc
+            n_s, scen_fail = sc.run_property(prop)
+            bounded["scenarios_run"] = n_s
+            bounded["failed"] = [dict(scenario=os.path.relpath(f, VERIF), mismatches=b[:3]) for f, b, _ in scen_fail]
+        except BaseException as e:  # the replay build can fail when the mutant does not compile the public API
+            bounded["error"] = str(e)[-400:]
     if undecided:
         for r in undecided:
             lines_out.append(f"UNDECIDED property={prop} unit={r['unit']} reason={r['reason']}")
@@ -389,12 +402,23 @@ def main():
         if k["text"] not in seenk:
             seenk.add(k["text"])
             lines_out.append(f"KNOWN-FINDING: property={prop} {k['text']}")
+    import replay as rp
     if violations:
-        import replay as rp
         for n, f in enumerate(violations):
             path = os.path.join(OUT, "replay", f"{prop}-{n}.json")
-            tail = rp.make_replay(prop, f, path)
+            tail = rp.make_replay(prop, f, path, scen_fail)
             lines_out.append(f"VIOLATION property={prop} replay={path}" + (" " + tail if tail else ""))
+        rc = 1
+    elif scen_fail and (undecided or tier == "thorough"):
+        # the verifier could not decide (or proved the contracts) but a concrete scenario contradicts the statement
+        f0 = dict(unit=None, fn=None, kind="bounded-scenario", tags=[], clause=None, repo_loc=None, highlight=None,
+                  message="bounded stand-in: a scenario's observed outcome differs from what the property statement prescribes"
+                          + ("; the deductive check itself is undecided: " + "; ".join(str(r["reason"])[:300] for r in undecided) if undecided else ""),
+                  rendered="")
+        path = os.path.join(OUT, "replay", f"{prop}-0.json")
+        tail = rp.make_replay(prop, f0, path, scen_fail)
+        lines_out.append(f"VIOLATION property={prop} replay={path}" + (" " + tail if tail else ""))
+        violations = [f0]
         rc = 1
     # evidence
     tb = ["Verus 0.2026.09.13 + bundled Z3 (A-verus); vstd specifications of std taken as given"]
@@ -434,6 +458,7 @@ def main():
                     for f in owned_fail],
             known_findings=[k["text"] for k, _ in known_hits],
             other_property_failures_seen=len(other_fail),
+            bounded=bounded,
         ),
         assumptions=tb,
         wall_s=round(time.time() - t0, 2),
